@@ -6,6 +6,7 @@ package c07
 import (
 	"fmt"
 	"testing"
+	"time"
 
 	"github.com/6tail/lunar-go/calendar"
 	"pgregory.net/rapid"
@@ -53,7 +54,7 @@ func oneOff(c civCase) bool { // exactly one coordinate out of range
 
 var civilCtor = ev.Register(&ev.P[civCase]{
 	Name: "civil_constructor_acceptance",
-	Rule: "integer tuples in a box around validity (month -2..15, day -2..34, hour -2..26, minute/second -2..62), dense on 1582, century years and February, enumerated for the hot years' (month, day) grid and generated elsewhere; oracle: NewSolar / NewSolarFromYmd succeed <=> R-civil says the date-time exists, and a built object reports the numbers given; non-trivial: exactly one coordinate invalid, or a 1582-10 day, Feb 29, or day 30/31",
+	Rule: "integer tuples in a box around validity (month -2..15, day -2..34, hour -2..26, minute/second -2..62), dense on 1582, century years and February, enumerated for the hot years' (month, day) grid and generated elsewhere; oracle: NewSolar / NewSolarFromYmd succeed <=> R-civil says the date-time exists, and a built object reports the numbers given (the date-only form reports 00:00:00; NewSolarFromDate/NewLunarFromDate of a time.Time holding exactly these fields, and NewLunarFromSolar, give the same date as NewSolar(...).GetLunar()); non-trivial: exactly one coordinate invalid, or a 1582-10 day, Feb 29, or day 30/31",
 	Check: func(c civCase) error {
 		want := ref.Valid(c.Y, c.M, c.D, c.H, c.Mi, c.S)
 		var s *calendar.Solar
@@ -64,6 +65,28 @@ var civilCtor = ev.Register(&ev.P[civCase]{
 		if got {
 			if g := gen.FromSolar(s); g != (ref.DT{Y: c.Y, M: c.M, D: c.D, H: c.H, Mi: c.Mi, S: c.S}) {
 				return fmt.Errorf("NewSolar%+v reports %v", c, g)
+			}
+		}
+		// the time.Time forms: when the standard library holds exactly these fields (its calendar is proleptic
+		// Gregorian, so only tuples it does not normalise qualify), the constructors take them over unchanged
+		if got && c.Y >= 1 {
+			tm := time.Date(c.Y, time.Month(c.M), c.D, c.H, c.Mi, c.S, 0, time.UTC)
+			if tm.Year() == c.Y && int(tm.Month()) == c.M && tm.Day() == c.D && tm.Hour() == c.H && tm.Minute() == c.Mi && tm.Second() == c.S {
+				var sd *calendar.Solar
+				var ld *calendar.Lunar
+				ok, msg := accepted(func() { sd = calendar.NewSolarFromDate(tm); ld = calendar.NewLunarFromDate(tm) })
+				if !ok {
+					return fmt.Errorf("NewSolarFromDate/NewLunarFromDate(%v) panicked (%s) on a date-time NewSolar accepts", tm, msg)
+				}
+				if g := gen.FromSolar(sd); g != (ref.DT{Y: c.Y, M: c.M, D: c.D, H: c.H, Mi: c.Mi, S: c.S}) {
+					return fmt.Errorf("NewSolarFromDate(%v) reports %v", tm, g)
+				}
+				l0, lf := s.GetLunar(), calendar.NewLunarFromSolar(s)
+				for _, x := range []*calendar.Lunar{ld, lf} {
+					if x.GetYear() != l0.GetYear() || x.GetMonth() != l0.GetMonth() || x.GetDay() != l0.GetDay() || x.GetHour() != c.H || x.GetMinute() != c.Mi || x.GetSecond() != c.S {
+						return fmt.Errorf("NewLunarFromDate/NewLunarFromSolar for %v give lunar %d/%d/%d %d:%d:%d, Solar.GetLunar gives %d/%d/%d", tm, x.GetYear(), x.GetMonth(), x.GetDay(), x.GetHour(), x.GetMinute(), x.GetSecond(), l0.GetYear(), l0.GetMonth(), l0.GetDay())
+					}
+				}
 			}
 		}
 		if c.H == 0 && c.Mi == 0 && c.S == 0 {
